@@ -5,6 +5,7 @@ import (
 	"os"
 	"path/filepath"
 	"sort"
+	"strconv"
 	"strings"
 	"sync"
 	"sync/atomic"
@@ -185,13 +186,23 @@ func c20Run(ci any) (out Outcome) {
 					}
 				case "nextid":
 					if get() {
-						id := hostNextID(h)
+						// bursts, so that allocations of different goroutines really overlap
+						local := make([]uint32, 0, 400)
+						for i := 0; i < 400; i++ {
+							local = append(local, hostNextID(h))
+						}
 						idMu.Lock()
-						hostIDs[id]++
+						for _, id := range local {
+							hostIDs[id]++
+						}
 						idMu.Unlock()
-						if r, err := h.DoT(Cmd{Op: "nextid"}, 10*time.Second); err == nil {
+						if r, err := h.DoT(Cmd{Op: "nextid", N: 400}, 10*time.Second); err == nil {
 							idMu.Lock()
-							plugIDs[uint32(r.N)]++
+							for _, s := range r.List {
+								if v, err := strconv.Atoi(s); err == nil {
+									plugIDs[uint32(v)]++
+								}
+							}
 							idMu.Unlock()
 						}
 					}
